@@ -117,6 +117,22 @@ let handle (line : Stdlib.String.t) : Stdlib.String.t =
         let e = { e_kind = KWildcard; e_line_start = q 3; e_actual = coq_string "ACTUAL"; e_expected = None } in
         "fallback " ^ hex (ocaml_string (fallback_display (coq_string "span_src.rs") [e]))
       end
+  | "refs" ->
+      (* refs <join_ok> <value> <tree>: has_regex, whether everything the expansion refers to exists without the
+         runtime crate's regex feature, and the runtime items it refers to *)
+      let value = Irconv.uexpr_of (Irconv.parse_sexp f.(2)) in
+      let p = Irconv.pat_of (Irconv.parse_sexp f.(3)) in
+      let s = expand (f.(1) = "1") p (VRoot value.u_toks) in
+      let name = function
+        | IErrorReport -> "ErrorReport" | IPatternNode -> "PatternNode" | IClosureCheck -> "check_closure_condition"
+        | ISetMatch -> "set_match" | ILikeTrait -> "Like" | IRegexType -> "Regex" | IStrRegexLikeImpl -> "" in
+      let names = List.sort_uniq compare (List.filter (fun x -> x <> "") (List.map name (top_refs s))) in
+      Printf.sprintf "has_regex=%d off=%d on=%d refs=%s" (if has_regex p then 1 else 0)
+        (if compiles_in false s then 1 else 0) (if compiles_in true s then 1 else 0) (Stdlib.String.concat "," names)
+  | "eqdispatch" ->
+      (* eqdispatch <macro has regex 0|1> <second char or -> *)
+      let second = if f.(2) = "-" then None else Some (ascii_of_char f.(2).[0]) in
+      (match dispatch_eq (f.(1) = "1") second with DComparison -> "comparison" | DLike -> "like" | DErr -> "err")
   | "cache" -> do_cache f
   | "guard" -> do_guard f
   | "styled" ->
